@@ -43,6 +43,7 @@ from cryptoparser.common.base import (
 )
 from cryptoparser.common.exception import InvalidType, NotEnoughData
 from cryptoparser.common.parse import ParsableBase, ParserBinary, ComposerBinary, ComposerText
+from cryptoparser.common.utils import convert_naive_datetime_to_utc
 from cryptoparser.common.x509 import PublicKeyX509
 
 
@@ -761,8 +762,14 @@ class SshHostCertificateV00Base(ParsableBase, SshCertificateBase):  # pylint: di
         converter=SshCertValidPrincipals,
         validator=attr.validators.instance_of(SshCertValidPrincipals)
     )
-    valid_after = attr.ib(validator=attr.validators.instance_of(datetime.datetime))
-    valid_before = attr.ib(validator=attr.validators.optional(attr.validators.instance_of(datetime.datetime)))
+    valid_after = attr.ib(
+        converter=convert_naive_datetime_to_utc,
+        validator=attr.validators.instance_of(datetime.datetime)
+    )
+    valid_before = attr.ib(
+        converter=convert_naive_datetime_to_utc,
+        validator=attr.validators.optional(attr.validators.instance_of(datetime.datetime))
+    )
     constraints = attr.ib(
         converter=SshCertConstraintVector,
         validator=attr.validators.instance_of(SshCertConstraintVector)
@@ -925,8 +932,14 @@ class SshHostCertificateV01Base(ParsableBase, SshCertificateBase):  # pylint: di
         converter=SshCertValidPrincipals,
         validator=attr.validators.instance_of(SshCertValidPrincipals)
     )
-    valid_after = attr.ib(validator=attr.validators.instance_of(datetime.datetime))
-    valid_before = attr.ib(validator=attr.validators.optional(attr.validators.instance_of(datetime.datetime)))
+    valid_after = attr.ib(
+        converter=convert_naive_datetime_to_utc,
+        validator=attr.validators.instance_of(datetime.datetime)
+    )
+    valid_before = attr.ib(
+        converter=convert_naive_datetime_to_utc,
+        validator=attr.validators.optional(attr.validators.instance_of(datetime.datetime))
+    )
     critical_options = attr.ib(
         converter=SshCertCriticalOptionVector,
         validator=attr.validators.instance_of(SshCertCriticalOptionVector)
